@@ -3,8 +3,11 @@ package props
 import (
 	"encoding/json"
 	"fmt"
+	"io"
+	"math/rand"
 	"os"
 	"strings"
+	"time"
 
 	"golang.org/x/mod/module"
 	modzip "golang.org/x/mod/zip"
@@ -143,9 +146,64 @@ func c05List(c *hx.Ctx, sc *zipScratch, m module.Version, files []gen.ZipFileSpe
 	}
 }
 
+// c05ZipSizeProbe (thorough tier only): one incompressible file of exactly MaxZipFile bytes.
+// CheckFiles accepts it, Create succeeds, but the encoded archive is larger than MaxZipFile, so
+// CheckZip and Unzip reject what Create produced (Create never looks at the encoded size).
+// The bytes are counted, not stored; CheckZip is run on a sparse file of the same size (it
+// looks at the file size before anything else).  Shape "C05-zipsize" (notes/replays/C05-zipsize).
+type c05Counter struct{ n int64 }
+
+func (w *c05Counter) Write(b []byte) (int, error) { w.n += int64(len(b)); return len(b), nil }
+
+type c05BigFile struct{ size int64 }
+
+func (f c05BigFile) Path() string                { return "data.bin" }
+func (f c05BigFile) Lstat() (os.FileInfo, error) { return c05BigInfo{f}, nil }
+func (f c05BigFile) Open() (io.ReadCloser, error) {
+	return io.NopCloser(io.LimitReader(rand.New(rand.NewSource(1)), f.size)), nil
+}
+
+type c05BigInfo struct{ f c05BigFile }
+
+func (i c05BigInfo) Name() string       { return "data.bin" }
+func (i c05BigInfo) Size() int64        { return i.f.size }
+func (i c05BigInfo) Mode() os.FileMode  { return 0o644 }
+func (i c05BigInfo) ModTime() time.Time { return time.Time{} }
+func (i c05BigInfo) IsDir() bool        { return false }
+func (i c05BigInfo) Sys() interface{}   { return nil }
+
+func c05ZipSizeProbe(sc *zipScratch) string {
+	m := module.Version{Path: "example.com/m", Version: "v1.0.0"}
+	files := []modzip.File{c05BigFile{modzip.MaxZipFile}}
+	if _, err := modzip.CheckFiles(files); err != nil {
+		return ""
+	}
+	var w c05Counter
+	if err := modzip.Create(&w, m, files); err != nil {
+		return ""
+	}
+	d := sc.next()
+	defer zipRemoveAll(d)
+	zf := d + "/a.zip"
+	f, err := os.Create(zf)
+	if err != nil {
+		panic(err)
+	}
+	f.Truncate(w.n)
+	f.Close()
+	if _, err := modzip.CheckZip(m, zf); err != nil && w.n > modzip.MaxZipFile {
+		return fmt.Sprintf("Create succeeded on one incompressible file of %d bytes and wrote %d bytes; CheckZip on an archive of that size: %v", int64(modzip.MaxZipFile), w.n, err)
+	}
+	return ""
+}
+
 func runC05(c *hx.Ctx) {
 	r := c.Rng
 	sc := newZipScratch(c.Out)
+	if c.Tier == "thorough" {
+		msg := c05ZipSizeProbe(sc)
+		c.Check("create-then-checkzip-ok", msg == "", "C05-zipsize", zipIn{Op: "zipsize"}, msg)
+	}
 	for i := 0; i < c.N(3500); i++ {
 		m := gen.ZipModuleVersion(r)
 		var files []gen.ZipFileSpec
@@ -186,10 +244,14 @@ func replayC05(raw json.RawMessage) (bool, string) {
 	if err := json.Unmarshal(raw, &in); err != nil {
 		return false, err.Error()
 	}
+	sc := zipReplayScratch("C05")
+	if in.Op == "zipsize" {
+		msg := c05ZipSizeProbe(sc)
+		return msg == "", msg
+	}
 	if in.Op != "create" {
 		return false, "unknown op " + in.Op
 	}
-	sc := zipReplayScratch("C05")
 	o, msg, _ := c05Oracles(sc, module.Version{Path: in.ModPath, Version: in.ModVersion}, zipUnjsFiles(in.Files))
 	return o == "", strings.TrimSpace(o + " " + msg)
 }
